@@ -56,6 +56,7 @@ type FuncContract struct {
 	ModAll   bool
 	LoopInv  map[int][]*Clause
 	LoopDec  map[int]*Clause
+	LoopNoBreak map[int]bool
 	AllocBound *Clause
 	Sites    []*SiteSpec
 	Strings  bool
@@ -570,6 +571,18 @@ func (db *ContractDB) loadContractFile(path string, pkgPath string, src []byte) 
 		case "loop":
 			// loop 1 invariant <expr> | loop 1 decreases <expr>
 			f := strings.SplitN(rest, " ", 3)
+			if len(f) == 2 && f[1] == "nobreak" {
+				// loop N nobreak: the loop is left only through its header (every element is visited)
+				k, err := strconv.Atoi(strings.TrimPrefix(f[0], "#"))
+				if err != nil {
+					return fmt.Errorf("%s:%d: bad loop ordinal", path, rl.line)
+				}
+				if curF.LoopNoBreak == nil {
+					curF.LoopNoBreak = map[int]bool{}
+				}
+				curF.LoopNoBreak[k] = true
+				break
+			}
 			if len(f) < 3 {
 				return fmt.Errorf("%s:%d: bad loop clause", path, rl.line)
 			}
